@@ -24,9 +24,17 @@ module N :
 
   val leb : coq_N -> coq_N -> bool
 
+  val ltb : coq_N -> coq_N -> bool
+
+  val min : coq_N -> coq_N -> coq_N
+
+  val max : coq_N -> coq_N -> coq_N
+
   val pos_div_eucl : positive -> coq_N -> coq_N * coq_N
 
   val div_eucl : coq_N -> coq_N -> coq_N * coq_N
+
+  val modulo : coq_N -> coq_N -> coq_N
 
   val coq_lor : coq_N -> coq_N -> coq_N
 
@@ -37,4 +45,6 @@ module N :
   val coq_lxor : coq_N -> coq_N -> coq_N
 
   val to_nat : coq_N -> nat
+
+  val of_nat : nat -> coq_N
  end
